@@ -85,22 +85,22 @@ type Exec struct {
 	params    map[string]int
 	openKnown map[string]bool
 
-	globals map[*ssa.Global]*Cell
-	guard   *term.Term
-	depth   int
-	steps   int64
-	maxStep int64
-	unwind  int
-	funcs   map[string]int // functions entered -> count
-	side    map[*Cell]interface{}
-	inconcl []string
+	globals      map[*ssa.Global]*Cell
+	guard        *term.Term
+	depth        int
+	steps        int64
+	maxStep      int64
+	unwind       int
+	funcs        map[string]int // functions entered -> count
+	side         map[*Cell]interface{}
+	inconcl      []string
 	concreteTape []uint64 // when non-nil: concrete replay mode, vnd values come from here
-	ctPos     int
-	mutexHeld map[*Cell]int
-	curPos    token.Pos
-	initDone  map[*ssa.Package]bool
-	opaque    map[string]Value
-	timeSeq   int
+	ctPos        int
+	mutexHeld    map[*Cell]int
+	curPos       token.Pos
+	initDone     map[*ssa.Package]bool
+	opaque       map[string]Value
+	timeSeq      int
 
 	facts             map[int]bool
 	abstractCRC       bool
@@ -504,13 +504,13 @@ func (x *Exec) runGoroutine(g parkedGo) {
 }
 
 type frame struct {
-	cut      *cutSpec
-	fn       *ssa.Function
-	regs     map[ssa.Value]Value
-	defers   []deferred
+	cut       *cutSpec
+	fn        *ssa.Function
+	regs      map[ssa.Value]Value
+	defers    []deferred
 	panicking *goPanic
 	recovered bool
-	visits   map[*ssa.BasicBlock]int
+	visits    map[*ssa.BasicBlock]int
 }
 
 func (x *Exec) get(fr *frame, v ssa.Value) Value {
